@@ -56,7 +56,27 @@ def wsdl_specs(draw):
                         parts.append({"name": pn, "type": draw(st.sampled_from(sorted(SIMPLE)))})
                 o[side] = parts
         if draw(st.integers(0, 2)) == 0:
-            o["header"] = {"name": "hdr", "element": element(f"{op}Header")}
+            # the header part lives in a message of its own, or in the input message next to the body parts (soap:body parts=...);
+            # in the second case its name extends the name of a body part
+            same = draw(st.booleans())
+            o["header"] = {"name": (o["input"][0]["name"] + "Header") if same else "hdr", "element": element(f"{op}Header"), "same_message": same}
+        # soap:operation may override the binding style and may leave soapAction out
+        o["style"] = draw(st.sampled_from([None, None, "document", "rpc"])) if i > 0 or draw(st.booleans()) else None
+        if o["style"] == style:
+            o["style"] = None
+        if o["style"] is not None:
+            for side, suffix in (("input", ""), ("output", "Response")):
+                if o["style"] == "document":
+                    o[side] = [{"name": o[side][0]["name"], "element": element(f"{op}{suffix}")}]
+                else:
+                    o[side] = [{"name": p["name"], "type": "string"} for p in o[side]]
+            if o["header"] and o["header"]["same_message"]:
+                o["header"]["name"] = o["input"][0]["name"] + "Header"
+        if o["header"] and o["header"]["same_message"] and (o["style"] or style) == "rpc":
+            # the rpc wrapper class takes every part of the message whatever soap:body parts= selects (recorded finding)
+            o["header"]["same_message"], o["header"]["name"] = False, "hdr"
+        if draw(st.integers(0, 3)) == 0:
+            o["action"] = None
         if draw(st.integers(0, 2)) == 0:
             o["fault"] = {"name": "fault", "element": element(f"{op}Fault")}
         spec["ops"].append(o)
@@ -91,9 +111,10 @@ def render_wsdl(spec):
             return f'<wsdl:part name="{p["name"]}" element="x:{p["element"]}"/>'
         return f'<wsdl:part name="{p["name"]}" type="{"xs" if p["type"] in SIMPLE else "x"}:{p["type"]}"/>'
     for o in spec["ops"]:
-        out.append(f'<wsdl:message name="{o["name"]}Request">' + "".join(part(p) for p in o["input"]) + "</wsdl:message>")
+        same = o["header"] and o["header"].get("same_message")
+        out.append(f'<wsdl:message name="{o["name"]}Request">' + "".join(part(p) for p in o["input"]) + (part(o["header"]) if same else "") + "</wsdl:message>")
         out.append(f'<wsdl:message name="{o["name"]}Response">' + "".join(part(p) for p in o["output"]) + "</wsdl:message>")
-        if o["header"]:
+        if o["header"] and not same:
             out.append(f'<wsdl:message name="{o["name"]}Hdr">{part(o["header"])}</wsdl:message>')
         if o["fault"]:
             out.append(f'<wsdl:message name="{o["name"]}Flt">{part(o["fault"])}</wsdl:message>')
@@ -104,11 +125,16 @@ def render_wsdl(spec):
     out.append("</wsdl:portType>")
     out.append(f'<wsdl:binding name="{spec["binding"]}" type="tns:{spec["service"]}Port">'
                f'<soap:binding style="{spec["style"]}" transport="http://schemas.xmlsoap.org/soap/http"/>')
-    body = '<soap:body use="literal"/>' if spec["style"] == "document" else f'<soap:body use="literal" namespace="{tns}"/>'
     for o in spec["ops"]:
-        hdr = f'<soap:header message="tns:{o["name"]}Hdr" part="{o["header"]["name"]}" use="literal"/>' if o["header"] else ""
-        out.append(f'<wsdl:operation name="{o["name"]}"><soap:operation soapAction="{o["action"]}"/>'
-                   f'<wsdl:input>{hdr}{body}</wsdl:input><wsdl:output>{body}</wsdl:output>' +
+        st_ = o.get("style") or spec["style"]
+        same = o["header"] and o["header"].get("same_message")
+        ns_attr = "" if st_ == "document" else f' namespace="{tns}"'
+        body_out = f'<soap:body use="literal"{ns_attr}/>'
+        body_in = f'<soap:body use="literal"{ns_attr}' + (f' parts="{" ".join(p["name"] for p in o["input"])}"' if same else "") + "/>"
+        hdr = f'<soap:header message="tns:{o["name"]}{"Request" if same else "Hdr"}" part="{o["header"]["name"]}" use="literal"/>' if o["header"] else ""
+        soap_op = "<soap:operation" + (f' soapAction="{o["action"]}"' if o["action"] is not None else "") + (f' style="{o["style"]}"' if o.get("style") else "") + "/>"
+        out.append(f'<wsdl:operation name="{o["name"]}">{soap_op}'
+                   f'<wsdl:input>{hdr}{body_in}</wsdl:input><wsdl:output>{body_out}</wsdl:output>' +
                    (f'<wsdl:fault name="{o["name"]}Fault"><soap:fault name="{o["name"]}Fault" use="literal"/></wsdl:fault>' if o["fault"] else "") +
                    "</wsdl:operation>")
     out.append("</wsdl:binding>")
@@ -143,7 +169,7 @@ def envelope(draw, spec, op, side, fault=False):
     if fault:
         detail = f'<detail>{_element(draw, spec, op["fault"]["element"])}</detail>' if op["fault"] else ""
         body = f'<soapenv:Fault><faultcode>soapenv:Server</faultcode><faultstring>{draw(st.sampled_from(["boom", "Bad request"]))}</faultstring>{detail}</soapenv:Fault>'
-    elif spec["style"] == "document":
+    elif (op.get("style") or spec["style"]) == "document":
         body = "".join(_element(draw, spec, p["element"]) for p in op[side])
     else:
         wrapper = op["name"] + ("Response" if side == "output" else "")
